@@ -150,15 +150,34 @@ func c08(e *Env) {
 	// topology faults between PREPARE and EXECUTE
 	switch shape {
 	case 1:
+		pooled := func(n *world.Node) int {
+			k := 0
+			for _, bc := range n.LiveConns() {
+				if bc.Started && !bc.Control {
+					k++
+				}
+			}
+			return k
+		}
+		before := map[*world.Node]int{}
 		for _, n := range w.Nodes {
+			before[n] = pooled(n)
 			if c.Choose("restart?", 2) == 1 {
 				n.Crash()
 				n.Restart()
 				e.Res.Stats["fault.node-restart"]++
 			}
 		}
-		// pools reconnect
-		f.settleSessions(5 * time.Minute)
+		// every pool of every session reconnects
+		w.RunUntil(func() bool {
+			for _, n := range w.Nodes {
+				if pooled(n) < before[n] {
+					return false
+				}
+			}
+			return true
+		}, 5*time.Minute)
+		w.Quiesce()
 	case 2:
 		k := 1 + c.Choose("joiners", 2)
 		for i := 0; i < k; i++ {
@@ -228,6 +247,36 @@ func c08(e *Env) {
 				blocked, _ := blockedReport(e.S)
 				w.Violate("c08-drain", "execute-not-answered", fmt.Sprintf("%s got no reply (drained=%v, attempts %s); blocked: [%s]", r, drained, traceOf(w, r.Token), blocked))
 				return
+			}
+		}
+	}
+	// with every re-preparation succeeding and no connection lost, EXECUTE and BATCH succeed on
+	// whichever host the proxy picked
+	anyReprepFailure, anyLoss := false, false
+	for _, pi := range f.preps {
+		for k, a := range w.Attempts[pi.token] {
+			if k > 0 && (a.Dropped || (a.Replied && a.Outcome != "ok")) {
+				anyReprepFailure = true
+			}
+		}
+	}
+	for _, a := range w.AttemptOrder {
+		if a.Dropped {
+			anyLoss = true
+		}
+	}
+	if !anyReprepFailure && !anyLoss && len(w.BadFrames) == 0 && len(w.UnexpectedAtBackend) == 0 {
+		for _, cl := range f.clients {
+			for _, r := range cl.Reqs {
+				ri := f.info[r]
+				if ri == nil || (ri.kind != "execute" && ri.kind != "batch") {
+					continue
+				}
+				if em, isErr := replyMsg(r).(message.Error); isErr {
+					w.Violate("c08-success", "execute-failed-although-statements-cached("+ri.kind+")", fmt.Sprintf("%s was answered with %v although every statement it uses is in the prepared cache, every re-preparation succeeded and no connection was lost; attempts %s", r, em, traceOf(w, r.Token)))
+					return
+				}
+				e.Res.Stats["oracle.c08.successes_checked"]++
 			}
 		}
 	}
